@@ -97,12 +97,20 @@ def run(tier):
         prog, bound, dl = p
         if chk.expired():
             return prog, bound, None
-        r = subprocess.run([ctl, 'explore', prog, str(bound), '0', str(dl)], stdout=subprocess.PIPE, stderr=subprocess.PIPE, text=True)
-        try:
-            return prog, bound, json.loads(r.stdout.strip().splitlines()[-1])
-        except Exception:
-            return prog, bound, {'error': (r.stdout[-300:] + r.stderr[-300:])}
-    with ThreadPoolExecutor(vf.NPROC) as ex:
+        # a program of the quick tier normally takes 1 - 5 s; on a machine with all cores busy an execution occasionally stalls until the
+        # program's deadline (observed with 12 identical explorers side by side; cause not identified).  A run stopped by its deadline is
+        # therefore repeated once before it counts as capped, and the quick tier does not wait longer than 90 s for one attempt.
+        lim = min(dl, 90) if tier == 'quick' else dl
+        for attempt in range(2):
+            r = subprocess.run([ctl, 'explore', prog, str(bound), '0', str(lim)], stdout=subprocess.PIPE, stderr=subprocess.PIPE, text=True)
+            try:
+                d = json.loads(r.stdout.strip().splitlines()[-1])
+            except Exception:
+                return prog, bound, {'error': (r.stdout[-300:] + r.stderr[-300:])}
+            if not d.get('capped') or d.get('violations'):
+                break
+        return prog, bound, d
+    with ThreadPoolExecutor(max(2, vf.NPROC // 2)) as ex:          # each explorer runs 2 - 4 runnable threads plus its forked executions
         results = list(ex.map(one, progs))
     nsched = 0; ntrans = 0; byp = [0] * 5; nlin = 0
     for prog, bound, r in results:
